@@ -141,6 +141,32 @@ def build_world(spec, init_seed):
             return tp.conditions.DataCondition(model, dl, norm=cs.get("norm", 2),
                                                use_full_dataset=bool(cs.get("full", False)),
                                                weight=kw["weight"], **({"name": kw["name"]} if "name" in kw else {}))
+        if kind == "pidon":
+            # physics-informed DeepONet condition; all of them share ONE DeepONet (branch cache!) but may use
+            # different function sets
+            from . import donsim
+            dcase = {"init": int(init_seed) + 17, "disc": spec["don"]["disc"], "udim": 1}
+            if getattr(w, "don", None) is None:
+                st = torch.random.get_rng_state()
+                w.don = donsim.make_net(dcase, spec["don"], 0)
+                torch.random.set_rng_state(st)
+                w.fsets = {}
+            fi = int(cs["fset"])
+            if fi not in w.fsets:
+                fs = spec["fsets"][fi]
+                if fs.get("kn"):
+                    T_, K_, F_, U_ = donsim._spaces()
+                    fspace = tp.spaces.FunctionSpace(tp.domains.Interval(T_, 0.0, 1.0), F_)
+                    w.fsets[fi] = tp.domains.CustomFunctionSet(
+                        fspace, tp.samplers.RandomUniformSampler(tp.domains.Interval(K_, 0.1, 1.5), n_points=int(fs["kn"])),
+                        donsim.fam(fs["fam"]))
+                else:
+                    w.fsets[fi] = donsim.make_fset(dcase, fs)
+            smp = donsim.make_sampler(cs["tsampler"])
+            res = donsim.make_resid(cs)
+            return tp.conditions.PIDeepONetCondition(w.don, w.fsets[fi], smp, res, weight=kw["weight"],
+                                                     track_gradients=bool(cs.get("track", True)),
+                                                     **({"name": kw["name"]} if "name" in kw else {}))
         if kind == "paramcond":
             return tp.conditions.ParameterCondition(w.param, lambda k: torch.sum((k - 2.0) ** 2),
                                                     weight=kw["weight"], **({"name": kw["name"]} if "name" in kw else {}))
